@@ -215,7 +215,7 @@ MODEL_UNREADABLE = ('missing', 'trunc_gz', 'nofasta')
 
 
 def _execute(ctx, kspec, paths, refmaker, mode, workers, policy, script, starve, seam_specs, pool_faults,
-             interrupt_at, progress, machine, info=None, interleave=False, quantum=200):
+             interrupt_at, progress, machine, info=None, interleave=False, quantum=200, cancel_at=None):
 	"""One execution of calc_file_signatures under the simulator. Returns nothing; raises Violation."""
 	from gambit.seq import SequenceFile
 	from gambit.sigs.calc import calc_file_signatures
@@ -238,6 +238,7 @@ def _execute(ctx, kspec, paths, refmaker, mode, workers, policy, script, starve,
 	sim = sx.Sim(ctx, machine_size=machine, policy=policy, script=script, starve=starve, interleave=interleave, quantum=quantum)
 	sim.task_faults = dict(pool_faults)
 	sim.interrupt_at = interrupt_at
+	sim.cancel_at = cancel_at if mode.startswith('exec') else None
 	kw = dict(progress=progress)
 	if mode == 'seq':
 		kw['concurrency'] = None
@@ -250,7 +251,7 @@ def _execute(ctx, kspec, paths, refmaker, mode, workers, policy, script, starve,
 		flavour = 'threads' if mode == 'exec-threads' else 'processes'
 		kw['executor'] = sx.SimExecutor(workers, flavour, sim=sim)
 	nf0 = sum(ctx.faults.values())
-	pf0 = ctx.faults['worker_death'] + ctx.faults['interrupt'] + ctx.faults['result_unpicklable']
+	pf0 = ctx.faults['worker_death'] + ctx.faults['interrupt'] + ctx.faults['result_unpicklable'] + ctx.faults['owner_cancelled_queued_tasks']
 	sx.activate(sim)
 	iosim.activate(plan)
 	try:
@@ -265,7 +266,7 @@ def _execute(ctx, kspec, paths, refmaker, mode, workers, policy, script, starve,
 		iosim.deactivate()
 		sx.deactivate()
 	ctx.stats['executions'] += 1
-	fired_pool = (ctx.faults['worker_death'] + ctx.faults['interrupt'] + ctx.faults['result_unpicklable']) > pf0
+	fired_pool = (ctx.faults['worker_death'] + ctx.faults['interrupt'] + ctx.faults['result_unpicklable'] + ctx.faults['owner_cancelled_queued_tasks']) > pf0
 	transient = bool(plan.transient_fired)
 	fired_any = sum(ctx.faults.values()) > nf0
 	order = list(sim.completion_order)
@@ -276,7 +277,7 @@ def _execute(ctx, kspec, paths, refmaker, mode, workers, policy, script, starve,
 	oc = 'ret' if outcome[0] == 'ret' else 'raised:' + type(outcome[1]).__name__
 	ctx.log('exec', n=n, mode=mode, workers=workers, policy=policy, order=order, unreadable=unread, preemptions=sim.preemptions,
 	        seam={os.path.basename(p): sorted(s.items()) for p, s in seam_specs.items() if set(s) - {'short'}},
-	        pool_faults=sorted(pool_faults.items()), interrupt_at=interrupt_at, outcome=oc,
+	        pool_faults=sorted(pool_faults.items()), interrupt_at=interrupt_at, cancel_at=cancel_at, outcome=oc,
 	        result=None if outcome[0] != 'ret' else _res_hash(outcome[1]))
 	if len(order) >= 2 and order != sorted(order):
 		ctx.probe('completion_out_of_submission_order')
@@ -385,6 +386,7 @@ def scenario(ctx):
 		# thread flavour: half of the executions pre-empt task bodies at line events instead of running them atomically
 		interleave = mode in ('threads', 'exec-threads') and ch.flip(0.4, L + '.interleave')
 		quantum = ch.pick([60, 12, 500], L + '.quantum') if interleave else 200
+		cancel_at = ch.int(1, max(1, n), L + '.cancel_at') if (n and mode.startswith('exec') and ch.flip(0.08, L + '.cancel')) else None
 		_execute(ctx, kspec, paths, refmaker, mode, workers, policy, None, starve, specs, pool_faults,
-		         interrupt_at, progress, machine, info, interleave, quantum)
+		         interrupt_at, progress, machine, info, interleave, quantum, cancel_at)
 	ctx.sample = dict(kind='sampled', n=n, executions=n_exec)
